@@ -1,6 +1,7 @@
 import RModel.Props.C01
 import RModel.Props.C08
 import RModel.Props.C03
+import RModel.Lemmas.ExactPass
 /-
   Cross-model composition theorems: the rename PLANNER (`RenamePlan.planRenames`, rename.rs), APPLY (`Apply.applyPlan`,
   apply.rs) and UNDO (`Undo.applyUndo`, undo.rs) are three hand-written models, each tied to the code by its own
@@ -230,5 +231,27 @@ example :
     (applyPlan t ⟨hunksOf [b!"foo_bar", b!"a.txt"] repl (Matcher.findMatches vs b!"x foo_bar y\nFooBar\n"), rs⟩).outcome = .ok ∧
     lookup (applyPlan t ⟨hunksOf [b!"foo_bar", b!"a.txt"] repl (Matcher.findMatches vs b!"x foo_bar y\nFooBar\n"), rs⟩).tree
       [b!"baz_qux", b!"a.txt"] = some (.file b!"x baz_qux y\nBazQux\n" 420) := by decide +kernel
+
+-- the two hand-written models of `pattern.rs` are one function ----------------------------------------------------------------
+
+/-- INTERNAL CONSISTENCY.  `pattern.rs` (`build_pattern`, `find_matches`, `is_boundary`) is modelled twice by hand:
+    `Matcher.findMatches` for C03 / C14 / C15 (whole files) and `LinePipeline.exactMatches` for C06 / C07 (one line, the keys
+    of the variant table), each compared with the real code on its own request stream.  For every content and every
+    non-empty list of non-empty keys they report THE SAME SPANS — although they order equal-length alternatives differently
+    (irrelevant: two different keys that match at one position are prefixes of one another, hence of different length, which
+    is also why leftmost-first over the length-sorted alternation is leftmost-longest). -/
+theorem exact_pass_models_agree (content : Bytes) (ks : List Bytes) (hks : ks ≠ []) (hne : ∀ k ∈ ks, k ≠ []) :
+    (LinePipeline.exactMatches content ks).map (fun m => (m.1, m.1 + m.2.length)) =
+      (Matcher.findMatches ks content).map (fun m => (m.start, m.stop)) :=
+  ExactPass.exactMatches_eq_findMatches content ks hks hne
+
+/-- non-vacuity, and the tie order really differs: `foo_bar` / `FOO_BAR` have equal length -/
+example :
+    LinePipeline.sortKeys [b!"foo_bar", b!"FOO_BAR", b!"FooBar", b!"fooBar"] ≠
+      Matcher.orderAlts [b!"foo_bar", b!"FOO_BAR", b!"FooBar", b!"fooBar"] ∧
+    (LinePipeline.exactMatches b!"x foo-bar(foo_bar) FooBar_y" [b!"foo_bar", b!"foo-bar", b!"FooBar"]).map
+      (fun m => (m.1, m.1 + m.2.length)) = [(2, 9), (10, 17), (19, 25)] ∧
+    (Matcher.findMatches [b!"foo_bar", b!"foo-bar", b!"FooBar"] b!"x foo-bar(foo_bar) FooBar_y").map
+      (fun m => (m.start, m.stop)) = [(2, 9), (10, 17), (19, 25)] := by decide +kernel
 
 end Compose
